@@ -891,6 +891,11 @@ def call_ext(ev, dotted, args, kwargs, node):
             return args[0]
         return _IDENTITY_DECORATOR
     if dotted in ("functools.wraps",):
+        from .evalr import ExtV, FuncV
+        if len(args) == 1 and isinstance(args[0], FuncV):
+            d = ExtV("sa.wraps")          # the decorator remembers what it wraps: wrapper.__wrapped__ is the original function
+            d.wrapped = args[0]
+            return d
         return _IDENTITY_DECORATOR
     # ---- observability: loggers, clocks, warning filters and floating-point error states neither produce nor change values
     if dotted in ("logging.getLogger",):
